@@ -35,6 +35,19 @@ CHECKS = {
              "order 3 (quick) / 4 (thorough) shown non-singular by independent elimination, orders above sampled.",
         note="Minors of order 5 and 6 are sampled, not enumerated; expected blocks come from the independent encoder, not from raid_gen.",
         design="DESIGN.md section 4, C03"),
+    "C06": dict(
+        category="exploration",
+        technique="stateful property-based testing (Hypothesis) with an independent content parser, hashes and GF(2^8) parity oracle",
+        engine="hypothesis-cli",
+        text="Random histories (file-system changes interleaved with sync variants, scrub, fix, rehash, touch, check, test-rewrite, "
+             "file loss) over generated configurations; after every single command the on-disk content file is decoded by an "
+             "independent parser and every stripe recorded as fully synced is recomputed from the bytes the harness wrote, for "
+             "every parity level, through the recorded split sizes. ~4000 histories quick, ~100k thorough; no counter-example "
+             "means the invariant held on all of them.",
+        note="Small arrays (<=5 disks, <=~150 stripes, 1-4 KiB blocks); trusts the harness's version store, its independent "
+             "hash/GF/CRC implementations (validated against reference vectors) and the reading that a stripe with a CHG/REP/DELETED "
+             "block is not recorded as synced.",
+        design="DESIGN.md section 4, C06"),
 }
 
 NOT_YET = "check not built yet at this commit (planned in DESIGN.md section 4); not claimed until it runs"
@@ -76,6 +89,9 @@ def main():
         "engines": [
             {"name": "raidprop", "path": "native/raidprop.cpp", "serves_properties": ["C02", "C03"],
              "kind_free_text": "rapidcheck property tests + deterministic sweeps linked against /repo/raid objects"},
+            {"name": "hypothesis-cli", "path": "lib/pbt.py", "serves_properties": sorted(k for k, v in CHECKS.items() if v["engine"] == "hypothesis-cli"),
+             "kind_free_text": "16 Hypothesis worker processes generating {config, program, fault} cases executed against the snapraid "
+                               "binary built from /repo in private tmpfs arrays; oracles in lib/ (cfparse, hashes, gf256, parityoracle)"},
         ],
         "checks": checks,
         "not_applicable": na,
